@@ -393,6 +393,27 @@ func (c *scopeCase) occContext(o luaref.Occ) string {
 	return best
 }
 
+// lineAt returns "<trimmed source line>@<column within the trimmed line>" for a range of a file: the
+// local, surroundings-independent description of an occurrence used in failure cores.
+func lineAt(text string, r drv.Range) string {
+	ls := strings.Split(text, "\n")
+	if r.Start.Line >= len(ls) {
+		return "?"
+	}
+	l := ls[r.Start.Line]
+	t := strings.TrimLeft(l, " ")
+	return fmt.Sprintf("%s@%d", t, r.Start.Character-(len(l)-len(t)))
+}
+
+func (c *scopeCase) frLines(xs []fileRange) string {
+	var out []string
+	for _, x := range xs {
+		out = append(out, x.File+":"+lineAt(c.Files[x.File], x.Range))
+	}
+	sort.Strings(out)
+	return strings.Join(out, " ; ")
+}
+
 func declKind(c *scopeCase, id int) string {
 	if id < 0 {
 		return "global"
